@@ -87,7 +87,7 @@ inductive Op where
   | stageAll
   | stage (ys : List Nat)              -- `git add -p`: an explicit staged version
   | commit
-  deriving Repr
+  deriving Repr, DecidableEq
 
 /-- positions (1-based) paired with elements -/
 def enum1 {α} (l : List α) : List (Nat × α) := (List.range l.length).map (· + 1) |>.zip l
